@@ -1,26 +1,162 @@
 (* C11 -- Save followed by load reproduces the object.
 
    Model: coq/Serial/SerialDefs.v (byte-level printers/parsers mirroring each
-   save()/load() of the repaired tree).  Every theorem: for ALL well-formed
-   objects x, ALL targets t, ALL white-space prefixes and ALL continuations of
-   the stream, load reads back exactly x (doubles bitwise; cached signatures
-   cleared), and leaves the stream just before the final newline of save x.
+   save()/load() of the repaired tree; doubles are 64-bit patterns, so equality
+   is bitwise).  [rt_spec save load norm x] unfolds to
+
+     forall pre rest t, all_ws pre ->
+       load (pre ++ save x ++ rest) t = (true, norm x, 10 :: rest)
+
+   i.e. for EVERY target t, EVERY white space before and EVERY continuation of
+   the stream, load succeeds, returns exactly [norm x] (x with the cached
+   signatures cleared; x itself for the types without one) and stops before the
+   final newline of save x.  The floating-point text enters through two
+   hypotheses on the oracles show17 / read_f (proved satisfiable below):
+     float_text_ok : the text of a finite double is non-empty, free of white
+                     space and read back bit for bit (17 significant digits);
+     blank_fails   : operator>> fails on a stream of blanks.
+   The wf_* predicates only bound the integers by their C++ types, ask the
+   doubles to be finite, and state the class invariants checked by is_valid().
    Nothing but statements lives in this file. *)
-From Coq Require Import ZArith List Bool Lia.
-From VV Require Import Serial.SerialDefs Serial.CodecProofs Serial.SerialProofs.
+From Coq Require Import ZArith List Bool Lia Sorted.
+From VV Require Import Serial.SerialDefs Serial.CodecProofs Serial.SerialProofs Serial.SerialExtraProofs.
 Import ListNotations.
 Local Open Scope Z_scope.
 
-Theorem C11_decimal_codec_roundtrip : forall hi n pre r, 0 <= n <= hi -> all_ws pre -> nds r ->
+Theorem C11_decimal_unsigned_roundtrip : forall hi n pre r, 0 <= n <= hi -> all_ws pre -> nds r ->
   read_int true 0 hi (pre ++ show_u n ++ r) = Some (n, r).
 Proof. exact read_int_show_u. Qed.
-Print Assumptions C11_decimal_codec_roundtrip.
+Print Assumptions C11_decimal_unsigned_roundtrip.
+
+Theorem C11_decimal_signed_roundtrip : forall lo hi n pre r, lo <= n <= hi -> all_ws pre -> nds r ->
+  read_int false lo hi (pre ++ show_i n ++ r) = Some (n, r).
+Proof. exact read_int_show_i. Qed.
+Print Assumptions C11_decimal_signed_roundtrip.
 
 Theorem C11_hash_roundtrip : forall h pre rest t, wf_hash h -> all_ws pre ->
   hash_load (pre ++ hash_save h ++ rest) t = (true, h, 10 :: rest).
 Proof. exact hash_rt. Qed.
 Print Assumptions C11_hash_roundtrip.
 
-Example C11_hash_nonvacuous : wf_hash (18446744073709551615, 0) /\
-  hash_load (hash_save (18446744073709551615, 0)) (1, 2) = (true, (18446744073709551615, 0), [10]).
-Proof. split; [unfold wf_hash, is_u64, u64_max; cbn; lia|vm_compute; reflexivity]. Qed.
+(* fitness_t::load consumes its whole line *)
+Theorem C11_fitness_roundtrip : forall show17 read_f, float_text_ok show17 read_f -> blank_fails read_f ->
+  forall f pre rest t, wf_fit f -> all_ws pre ->
+  fit_load read_f (pre ++ fit_save show17 f ++ rest) t = (true, f, rest).
+Proof. exact fit_rt. Qed.
+Print Assumptions C11_fitness_roundtrip.
+
+Theorem C11_i_mep_roundtrip : forall show17 read_f, float_text_ok show17 read_f ->
+  forall ss m, wf_mep ss m -> rt_spec (mep_save show17 ss) (mep_load read_f ss) mep_norm m.
+Proof. exact mep_rt. Qed.
+Print Assumptions C11_i_mep_roundtrip.
+
+Theorem C11_i_ga_roundtrip : forall v, wf_ga v -> rt_spec ga_save ga_load vec_norm v.
+Proof. exact ga_rt. Qed.
+Print Assumptions C11_i_ga_roundtrip.
+
+Theorem C11_i_de_roundtrip : forall show17 read_f, float_text_ok show17 read_f ->
+  forall v, wf_de v -> rt_spec (de_save show17) (de_load read_f) vec_norm v.
+Proof. exact de_rt. Qed.
+Print Assumptions C11_i_de_roundtrip.
+
+(* containers: over ANY kind of individual that round-trips *)
+Theorem C11_team_roundtrip : forall (I : Type) isave iload (idflt : I) inorm (wfI : I -> Prop),
+  (forall x, wfI x -> rt_spec isave iload inorm x) -> (forall x, (0 < length (isave x))%nat) ->
+  forall tm, wf_team I wfI tm ->
+  rt_spec (team_save I isave) (team_load I iload idflt) (team_norm I inorm) tm.
+Proof. exact team_rt. Qed.
+Print Assumptions C11_team_roundtrip.
+
+Theorem C11_population_roundtrip : forall (I : Type) isave iload (idflt : I) inorm (wfI : I -> Prop),
+  (forall x, wfI x -> rt_spec isave iload inorm x) -> (forall x, (0 < length (isave x))%nat) ->
+  forall p, wf_pop I wfI p ->
+  rt_spec (pop_save I isave) (pop_load I iload idflt) (map (layer_norm I inorm)) p.
+Proof. exact pop_rt. Qed.
+Print Assumptions C11_population_roundtrip.
+
+Theorem C11_summary_roundtrip : forall show17 read_f, float_text_ok show17 read_f -> blank_fails read_f ->
+  forall (I : Type) isave iload (idflt : I) inorm (wfI : I -> Prop),
+  (forall x, wfI x -> rt_spec isave iload inorm x) ->
+  forall isempty x, wf_summary I idflt wfI isempty x ->
+  rt_spec (summary_save show17 I isave isempty) (summary_load read_f I iload idflt) (sum_norm I inorm isempty) x.
+Proof. exact summary_rt. Qed.
+Print Assumptions C11_summary_roundtrip.
+
+Theorem C11_distribution_roundtrip : forall show17 read_f, float_text_ok show17 read_f ->
+  forall d, wf_dist d -> rt_spec (dist_save show17) (dist_load read_f) (fun d => d) d.
+Proof. exact dist_rt. Qed.
+Print Assumptions C11_distribution_roundtrip.
+
+Theorem C11_matrix_roundtrip : forall m, wf_matrix m -> rt_spec matrix_save matrix_load (fun m => m) m.
+Proof. exact matrix_rt. Qed.
+Print Assumptions C11_matrix_roundtrip.
+
+(* a concrete tower: multi-layer populations of teams of MEP individuals *)
+Theorem C11_population_of_teams_roundtrip : forall show17 read_f, float_text_ok show17 read_f ->
+  forall ss p, wf_pop (team mep) (wf_team mep (wf_mep ss)) p ->
+  rt_spec (pop_save (team mep) (team_save mep (mep_save show17 ss)))
+          (pop_load (team mep) (team_load mep (mep_load read_f ss) mep_default) team_default)
+          (map (layer_norm (team mep) (team_norm mep mep_norm))) p.
+Proof. exact pop_of_teams_rt. Qed.
+Print Assumptions C11_population_of_teams_roundtrip.
+
+(* saving the reloaded object yields the same bytes again *)
+Theorem C11_resave_same_bytes_individuals : forall s17 ss m v,
+  mep_save s17 ss (mep_norm m) = mep_save s17 ss m /\
+  ga_save (vec_norm v) = ga_save v /\ de_save s17 (vec_norm v) = de_save s17 v.
+Proof. intros. exact (conj (mep_save_norm s17 ss m) (conj (ga_save_norm v) (de_save_norm s17 v))). Qed.
+Print Assumptions C11_resave_same_bytes_individuals.
+
+Theorem C11_resave_same_bytes_containers : forall (I : Type) (isave : I -> stream) inorm,
+  (forall x, isave (inorm x) = isave x) ->
+  (forall t, team_save I isave (team_norm I inorm t) = team_save I isave t) /\
+  (forall p, pop_save I isave (map (layer_norm I inorm) p) = pop_save I isave p).
+Proof. intros I isave inorm H. exact (conj (fun t => team_save_norm I isave inorm t H) (fun p => pop_save_norm I isave inorm p H)). Qed.
+Print Assumptions C11_resave_same_bytes_containers.
+
+(* the signature of the reloaded individual is the signature of the original,
+   for every hash function of the content *)
+Theorem C11_signature_preserved : forall h m, mep_sig_valid h m ->
+  mep_signature h (mep_norm m) = mep_signature h m.
+Proof. exact mep_signature_norm. Qed.
+Print Assumptions C11_signature_preserved.
+
+(* ---- non-vacuity ---- *)
+(* the two hypotheses on the floating-point oracles are satisfiable *)
+Example C11_float_hypotheses_satisfiable : float_text_ok show_u read_u64 /\ blank_fails read_u64.
+Proof. exact (conj toy_float_text_ok toy_blank_fails). Qed.
+
+Definition ex_ss : symset := [ {| sy_opcode := 0; sy_arity := 0; sy_param := true |};
+                              {| sy_opcode := 1; sy_arity := 2; sy_param := false |} ].
+Definition ex_mep : mep :=
+  {| m_age := 7; m_cols := 1;
+     m_genes := [ {| g_op := 1; g_par := 0; g_args := [1; 2] |};
+                  {| g_op := 0; g_par := 4638355772470722560; g_args := [] |};
+                  {| g_op := 0; g_par := 9218868437227405311; g_args := [] |} ];
+     m_best := (0, 0); m_sig := (5, 6) |}.
+Example C11_wf_mep_met : wf_mep ex_ss ex_mep.
+Proof.
+  assert (G1 : wf_gene ex_ss {| g_op := 1; g_par := 0; g_args := [1; 2] |}).
+  { split; [unfold is_u32, u32_max; cbn; lia|].
+    exists {| sy_opcode := 1; sy_arity := 2; sy_param := false |}.
+    repeat split; try reflexivity. repeat constructor; unfold is_u16, u16_max; lia. }
+  assert (G2 : forall p, finite_b p = true -> wf_gene ex_ss {| g_op := 0; g_par := p; g_args := [] |}).
+  { intros p Hp. split; [unfold is_u32, u32_max; cbn; lia|].
+    exists {| sy_opcode := 0; sy_arity := 0; sy_param := true |}.
+    repeat split; try reflexivity; [constructor|exact Hp]. }
+  unfold wf_mep, ex_mep, mep_rows, is_u32, is_u64, u32_max, u64_max.
+  cbn [m_age m_cols m_genes m_best m_sig zlen length fst snd].
+  repeat split; try (cbn; lia).
+  constructor; [exact G1|]. constructor; [apply G2; reflexivity|].
+  constructor; [apply G2; reflexivity|constructor].
+Qed.
+Example C11_mep_example_runs :
+  mep_load read_u64 ex_ss (mep_save show_u ex_ss ex_mep) mep_default = (true, mep_norm ex_mep, [10]).
+Proof. vm_compute. reflexivity. Qed.
+Example C11_wf_population_met :
+  wf_pop vec_ind wf_ga [ (5, [ {| v_age := 3; v_genome := [-2147483648; 2147483647]; v_sig := (1, 1) |} ]); (4, []) ].
+Proof.
+  unfold wf_pop, wf_layer, wf_ga, is_u32, is_u64, is_i32, u32_max, u64_max, i32_min, i32_max.
+  repeat split; try discriminate; try (cbn; lia).
+  repeat constructor; cbn; try lia; repeat constructor; cbn; lia.
+Qed.
